@@ -8,6 +8,42 @@ VERIF = os.path.dirname(os.path.dirname(os.path.abspath(__file__)))
 SEEDED = os.path.join(VERIF, 'seeded')
 
 NEEDS = {
+    'C01-r5m1': 'a height above 32.768 km that is not float-representable (altitude field narrowed to float)',
+    'C01-r5m2': 'an exactly spherical ellipsoid, b == a (e2 computed as inf/inf)',
+    'C02-r5m1': 'local points tens of km from the anchor at mm accuracy, or an orthonormality check (rotation assembled in float)',
+    'C02-r5m2': 'an anchor above about 50 deg of latitude and a mm-level round trip (EPSILON 1e-7)',
+    'C03-r5m1': 'a point within 1e-5 rad of the central meridian but not on it (near() ignores its epsilon)',
+    'C03-r5m2': 'a central meridian west of Greenwich, longitude0 < 0 (normalised to [0, 2 pi))',
+    'C04-r5m1': 'double point type, preconditioned overloads, a scale not representable in float',
+    'C04-r5m2': 'a 3-D point type with exactly 3 points / correspondences',
+    'C05-r5m1': 'setPreconditioner(scale != 1) on A, copy or move A into B, B.find(...)',
+    'C05-r5m2': 'a motion that is small in the units of the solved problem (low preconditioning scale or ~1e-6 motion)',
+    'C07-r5m1': 'a data size that is an exact multiple of 64 with noisy observations',
+    'C07-r5m2': 'weightedEstimate() with all weights >= 1 and not all 1',
+    'C09-r5m1': 'strongly elongated neighbourhoods (closed-form eigen solver)',
+    'C09-r5m2': 'the overloads returning normals and curvatures without reliabilities (flip after the copy)',
+    'C10-r5m1': 'a yaw congruent to a value in (-pi, 0)',
+    'C10-r5m2': 'a point close to the x axis (cancellation in sqrt(1 - cos^2)): a rounding statement',
+    'C11-r5m1': 'T * pose, then pose.orientation modified in place, then T * pose again (cache inside the pose)',
+    'C11-r5m2': 'a full-rank xy covariance with condition number between 8.4e6 and 1e8',
+    'C12-r5m1': 'cond(J^T J) above 1e6 through the SVD path (relative threshold 1e-6)',
+    'C12-r5m2': 'a non-null covariance with every entry at most 1e-12',
+    'C13-r5m1': 'interval form with a negative exact half-multiple upper bound and a point on it',
+    'C13-r5m2': 'two grids of one instantiation with different resolutions in one process (static const half cell)',
+    'C14-r5m1': 'an end point exactly on a cell border reached in the positive direction',
+    'C14-r5m2': 'a grid with more cells along y or z than along x and a ray reaching those indexes',
+    'C15-r5m1': 'non-const access to cell c, a translate that is not a multiple of n, then cell c again',
+    'C15-r5m2': 'an axis with offset c scrolled by d with c + d % n == n',
+    'C16-r5m1': 'W >= 31 with samples near the top of the allowed magnitude and mixed signs (n * sum of squares overflows)',
+    'C16-r5m2': 'isAvailable() queried when exactly W samples have arrived',
+    'C17-r5m1': 'late heartbeat, data stamps, no early heartbeat, another late heartbeat',
+    'C17-r5m2': 'one inter-stamp silence longer than 2.147 s (32-bit periods)',
+    'C18-r5m1': 'a negative value with 6 significant digits and a three-digit exponent',
+    'C18-r5m2': 'the pair {WARN, ERROR}',
+    'C19-r5m1': 'consume() overlapping a store() while an earlier value is pending (try_to_lock)',
+    'C19-r5m2': 'getReport() while CheckupLowerThan::evaluate runs (temporary lock_guard)',
+    'C20-r5m1': 'a query point exactly on an upper face, or a box with a zero half-extent',
+    'C20-r5m2': 'a set of at least 512 points',
     'C01-r4m1': '|latitude| above about 89.4 deg and a last iteration step above ~3e-13 rad (altitude taken at the previous latitude iterate)',
     'C01-r4m2': 'two converters on different ellipsoids in one process (function-local static const initialised from the first object)',
     'C02-r4m1': 'a point or anchor with negative ellipsoidal height (altitude computed as a distance)',
